@@ -28,7 +28,9 @@
      if tag in triggers: parse = False
   Node.appendChild → _child_attached → doc.rebuild_caches(e) → build_caches(e):    `attachHook`
      style:style with style:name under office:styles / office:automatic-styles is
-     registered by name; a name already registered is renamed 'M'+name and the pair
+     registered by name; a name already registered (during a load `__registered_style(name)` is
+     just the index lookup: nothing is removed or renamed afterwards) is renamed 'M'+name, with
+     further 'M's until the name is free (fix a298761), and the pair
      goes into _styles_ooo_fix; then text:style-name of e is rewritten if it is a key
      of _styles_ooo_fix.   (the element has no children yet when it is attached)
 
@@ -256,6 +258,11 @@ def setFix (k v : Str) : List (Str × Str) → List (Str × Str)
 
 def addName (n : Str) (names : List Str) : List Str := if n ∈ names then names else names ++ [n]
 
+/-- (fix a298761) `while self.__registered_style(newname) is not None: newname = u'M' + newname` -/
+def freeName (names : List Str) : Nat → Str → Str
+  | 0, n => n
+  | f+1, n => if n ∈ names then freeName names f (77 :: n) else n
+
 /-- `build_caches(e)` for an element that is being attached under `pq` -/
 def attachHook (names : List Str) (fix : List (Str × Str)) (pq : Option QName) (q : QName)
     (attrs : List (QName × Str)) : List Str × List (Str × Str) × List (QName × Str) :=
@@ -270,7 +277,7 @@ def attachHook (names : List Str) (fix : List (Str × Str)) (pq : Option QName) 
         | some nm =>
           if p = qStyles ∨ p = qAutoStyles then
             if nm ∈ names then
-              let nn := 77 :: nm
+              let nn := freeName names (names.length + 1) (77 :: nm)
               (addName nn names, setFix nm nn fix, setA aStyleName nn attrs)
             else (names ++ [nm], fix, attrs)
           else (names, fix, attrs)
@@ -529,10 +536,24 @@ def findRootEnd : Str → Nat → Option Nat
       | [] => none
     else findRootEnd r (i + 1)
 
-/-- `xmlpart[e : xmlpart.find(u'>', e)]` (`find` returning -1 makes the slice end before the last character) -/
-def rootTagText (x : Str) (e : Nat) : Str :=
-  let t := x.drop e
-  if t.contains 62 then t.takeWhile (· != 62) else t.dropLast
+/-- the text of a quoted run after its opening quote `q`: (inside, rest after the closing quote) -/
+def splitAtQuote (q : Cp) (r : Str) : Option (Str × Str) :=
+  if r.contains q then some (r.takeWhile (· != q), (r.dropWhile (· != q)).drop 1) else none
+
+/-- `re.match(u'(?:[^>"\']|"[^"]*"|\'[^\']*\')*', t).group(0)` (fix 283a4a4): the text up to the first `>` that is not
+    inside a quoted attribute value; an opening quote without its closing quote ends the match -/
+def scanTag : Nat → Str → Str
+  | 0, _ => []
+  | _+1, [] => []
+  | f+1, c :: r =>
+    if c == 62 then []
+    else if c == 34 || c == 39 then
+      match splitAtQuote c r with
+      | some (ins, rest) => c :: (ins ++ c :: scanTag f rest)
+      | none => []
+    else c :: scanTag f r
+
+def rootTagText (x : Str) (e : Nat) : Str := scanTag ((x.drop e).length + 1) (x.drop e)
 
 /-- `\sxmlns:<p>\s*=` matches at the head of the text -/
 def declAt (p : Str) : Str → Bool
@@ -545,7 +566,7 @@ def declares (p : Str) : Str → Bool
   | [] => false
   | c :: r => declAt p (c :: r) || declares p r
 
-/-- one round of the loop (fix 4cb8050): the test looks at the document element's start tag up to the first `>`,
+/-- one round of the loop (fixes 4cb8050, 283a4a4): the test looks at the document element's start tag (`rootTagText`),
     the splice goes right after the element name -/
 def fixStep (tag : Str) (e : Nat) (result : Str) (p : Str) : Str :=
   if declares p tag then result else result.take e ++ toInsert p ++ result.drop e
